@@ -29,6 +29,8 @@ def showOptVal : OptVal → String
 def showOpts (os : List OptEntry) : String :=
   ";".intercalate (os.map fun o => toString o.code ++ "=" ++ showOptVal o.val)
 
+def showTypes (ts : List Nat) : String := ".".intercalate (ts.map toString)
+
 def showRData : RData → String
   | .a b => "A:" ++ toHex b
   | .aaaa b => "AAAA:" ++ toHex b
@@ -45,6 +47,24 @@ def showRData : RData → String
   | .opt os => "OPT:" ++ showOpts os
   | .update0 t => "UPD0:" ++ toString t
   | .zero => "ZERO"
+  | .tsig alg time fudge mac oid err other =>
+    "TSIG:" ++ showName alg ++ ":" ++ toString time ++ ":" ++ toString fudge ++ ":" ++ toHex mac ++ ":" ++
+      toString oid ++ ":" ++ toString err ++ ":" ++ toHex other
+  | .ds tag alg dt d => "DS:" ++ toString tag ++ ":" ++ toString alg ++ ":" ++ toString dt ++ ":" ++ toHex d
+  | .dnskey cd flags alg k =>
+    "DNSKEY:" ++ toString flags ++ ":" ++ toString alg ++ ":" ++ (if cd && alg == 0 then "!" else toHex k)
+  | .sig c a l o e i t n sg =>
+    "SIG:" ++ toString c ++ ":" ++ toString a ++ ":" ++ toString l ++ ":" ++ toString o ++ ":" ++ toString e ++
+      ":" ++ toString i ++ ":" ++ toString t ++ ":" ++ showName n ++ ":" ++ toHex sg
+  | .nsec n ts => "NSEC:" ++ showName n ++ ":" ++ showTypes ts
+  | .nsec3 oo it salt hash ts =>
+    "NSEC3:" ++ showBool oo ++ ":" ++ toString it ++ ":" ++ toHex salt ++ ":" ++ toHex hash ++ ":" ++ showTypes ts
+  | .nsec3param oo it salt => "NSEC3PARAM:" ++ showBool oo ++ ":" ++ toString it ++ ":" ++ toHex salt
+  | .cert ct tag alg d => "CERT:" ++ toString ct ++ ":" ++ toString tag ++ ":" ++ toString alg ++ ":" ++ toHex d
+  | .csync serial flags ts => "CSYNC:" ++ toString serial ++ ":" ++ toString flags ++ ":" ++ showTypes ts
+  | .tlsa u sl m d => "TLSA:" ++ toString u ++ ":" ++ toString sl ++ ":" ++ toString m ++ ":" ++ toHex d
+  | .sshfp a f d => "SSHFP:" ++ toString a ++ ":" ++ toString f ++ ":" ++ toHex d
+  | .openpgpkey d => "OPENPGPKEY:" ++ toHex d
   | .opaque t v => "X" ++ toString t ++ ":" ++ toHex v
 
 def showRecord (r : Record) : String :=
